@@ -207,6 +207,9 @@ func (c *Concretizer) patchesFor(d Delta) []interface{} {
 		return []interface{}{jsonPatch(map[string]interface{}{"op": "remove", "path": fmt.Sprintf("/m%d", d.I)})}
 	case "addkey_remmem":
 		return []interface{}{addKey(d.I), jsonPatch(map[string]interface{}{"op": "remove", "path": "/m1"})}
+	case "remmem_replace":
+		return []interface{}{jsonPatch(map[string]interface{}{"op": "remove", "path": "/m1"}),
+			map[string]interface{}{"action": "replace", "document": map[string]interface{}{"publicKeys": []interface{}{c.docKeyJSON(d.I)}}}}
 	}
 
 	panic("harness: unknown delta kind " + d.K)
